@@ -252,6 +252,7 @@ func runC17(c *Ctx) {
 	ruleMapCursorCopies(c, "R17h")
 	ruleR13h(c, "R17j", 1)
 	ruleHasMoreMeansNext(c, "R17i")
+	ruleFetchAllKeepsEveryPage(c, "R17k")
 }
 
 func (c *Ctx) instancesOrSelf(fn *ssa.Function) []*ssa.Function {
